@@ -1391,6 +1391,165 @@ func verifC13Free(max, thr int, seed int64, failpct int, streams []string) strin
 	return fmt.Sprintf("%s|final=%s|finalsave=%s|maxput=%d|cow=%d", strings.Join(parts, "|"), final, finalsave, maxput, cow)
 }
 
+
+// ---------------------------------------------------------------------------------------------
+// Mode 3, memSegment against the heap model (Model/C13_Cow.lean):
+//
+//	cow <op;op;...>
+//	  op = t,<i>,<n>            segs[i].Truncate(n)
+//	     | w,<i>,<hex>,<off>    segs[i].WriteAt(p, off)
+//	     | s,<i>,<off>,<len>    segs = append(segs, segs[i].Slice(off, len))
+//	     | h,<i>                hand-off: segs[i].flushing = <new channel>; the buffer segs[i].buf is
+//	                            remembered together with a copy of its bytes (what PutB is given)
+//	     | d,<i>                segs[i] leaves the list
+//	  The list starts with one empty memSegment. Result: one token per op joined by ';':
+//	  <seg>/<seg>/...:<shared>/<shared>/...   (after the op; '-' for an empty list), or `panic` (the
+//	  case stops there).
+//	  seg    = <alloc>.<len>.<cap>.<f|n>.<content>     f = flushing != nil
+//	  shared = <alloc>.<len>.<1|0>                     1 = still holds the bytes it had at hand-off
+//	  alloc  = a<k>: the k-th distinct backing array seen (identity = address of element 0; every
+//	           buffer ever seen is kept alive, so addresses are never reused), z = capacity 0
+//	  content = hex for <= 24 bytes, else k<sum of (i+1)*b[i] mod 1000003>
+type verifC13Shared struct {
+	buf  []byte
+	snap []byte
+}
+
+func verifC13Content(b []byte) string {
+	if len(b) <= 24 {
+		return hex.EncodeToString(b)
+	}
+	sum := 0
+	for i, x := range b {
+		sum = (sum + (i+1)*int(x)) % 1000003
+	}
+	return fmt.Sprintf("k%d", sum)
+}
+
+func verifC13Cow(ops []string) string {
+	segs := []*memSegment{{}}
+	var shared []verifC13Shared
+	var keep [][]byte
+	ids := map[*byte]int{}
+	alloc := func(b []byte) string {
+		if cap(b) == 0 {
+			return "z"
+		}
+		p := &b[:1][0]
+		id, ok := ids[p]
+		if !ok {
+			id = len(ids)
+			ids[p] = id
+			keep = append(keep, b)
+		}
+		return fmt.Sprintf("a%d", id)
+	}
+	type cowOp struct {
+		kind    byte
+		i, x, y int
+		p       []byte
+	}
+	var parsed []cowOp
+	for _, op := range ops {
+		a := strings.Split(op, ",")
+		num := func(k int) (int, bool) {
+			n, err := strconv.Atoi(a[k])
+			return n, err == nil && n >= 0
+		}
+		want := map[string]int{"t": 3, "w": 4, "s": 4, "h": 2, "d": 2}[a[0]]
+		if want == 0 || len(a) != want {
+			return "bad-op"
+		}
+		c := cowOp{kind: a[0][0]}
+		var ok bool
+		if c.i, ok = num(1); !ok {
+			return "bad-op"
+		}
+		switch c.kind {
+		case 't':
+			if c.x, ok = num(2); !ok {
+				return "bad-op"
+			}
+		case 'w':
+			var err error
+			if c.p, err = hex.DecodeString(a[2]); err != nil {
+				return "bad-op"
+			}
+			if c.x, ok = num(3); !ok {
+				return "bad-op"
+			}
+		case 's':
+			var ok2 bool
+			c.x, ok = num(2)
+			c.y, ok2 = num(3)
+			if !ok || !ok2 {
+				return "bad-op"
+			}
+		}
+		parsed = append(parsed, c)
+	}
+	var res []string
+	for _, c := range parsed {
+		i := c.i
+		panicked := false
+		func() {
+			defer func() {
+				if r := recover(); r != nil {
+					panicked = true
+				}
+			}()
+			if i >= len(segs) {
+				panic("no such segment")
+			}
+			switch c.kind {
+			case 't':
+				segs[i].Truncate(c.x)
+			case 'w':
+				segs[i].WriteAt(c.p, c.x)
+			case 's':
+				segs = append(segs, segs[i].Slice(c.x, c.y).(*memSegment))
+			case 'h':
+				segs[i].flushing = make(chan struct{})
+				shared = append(shared, verifC13Shared{buf: segs[i].buf, snap: append([]byte(nil), segs[i].buf...)})
+			case 'd':
+				segs = append(segs[:i:i], segs[i+1:]...)
+			}
+		}()
+		if panicked {
+			res = append(res, "panic")
+			break
+		}
+		var ss, hs []string
+		for _, sg := range segs {
+			f := "n"
+			if sg.flushing != nil {
+				f = "f"
+			}
+			ss = append(ss, fmt.Sprintf("%s.%d.%d.%s.%s", alloc(sg.buf), len(sg.buf), cap(sg.buf), f, verifC13Content(sg.buf)))
+		}
+		for _, sh := range shared {
+			intact := 0
+			if bytes.Equal(sh.buf, sh.snap) {
+				intact = 1
+			}
+			hs = append(hs, fmt.Sprintf("%s.%d.%d", alloc(sh.buf), len(sh.buf), intact))
+		}
+		tok := "-"
+		if len(ss) > 0 {
+			tok = strings.Join(ss, "/")
+		}
+		tok += ":"
+		if len(hs) > 0 {
+			tok += strings.Join(hs, "/")
+		} else {
+			tok += "-"
+		}
+		res = append(res, tok)
+	}
+	runtime.KeepAlive(keep)
+	return strings.Join(res, ";")
+}
+
 func verifC13Case(line string) (out string) {
 	defer func() {
 		if r := recover(); r != nil {
@@ -1405,6 +1564,8 @@ func verifC13Case(line string) (out string) {
 			return "bad-op"
 		}
 		return verifC13Det(max, strings.Split(f[2], ";"))
+	case len(f) == 2 && f[0] == "cow":
+		return verifC13Cow(strings.Split(f[1], ";"))
 	case len(f) == 6 && f[0] == "free":
 		max, err1 := strconv.Atoi(f[1])
 		thr, err2 := strconv.Atoi(f[2])
